@@ -324,5 +324,7 @@ def run(ctx: Ctx, rep: Report, tier: str):
     rep.rule("C05.V19", "a conflict is seen even when only one side's event arrived: the pre-sync refresh re-reads the quiet side too, so hash_conflict() can fire (C14.W1)", 1)
     section(rep, lambda: refresh_covers_both_sides(ctx, rep, "C05.V19"))
     from rules.decisions import decision_table, table_sites
-    rep.rule("C05.V20", "decision table of conflict resolution: every action site of resolve_conflict, the merge upload, the resolver call and its validation, hash-conflict handling and conflict renaming is reached under exactly the recorded path condition", table_sites("C05"))
-    section(rep, lambda: decision_table(ctx, rep, "C05.V20", "C05"))
+    rep.rule("C05.DT", "decision table (rules/decisions.json) of conflict resolution: resolve_conflict, the merge upload, the resolver call and its validation, hash-conflict handling, conflict renaming, ResolveFile: for every function and every action shape (an impure call with the parameters it passes, a store to an "
+             "attribute or item, a delete, a returned constant, a yield, a raise) the set of states - over the function's guard atoms - in which the action is taken "
+             "equals the recorded one; compared as canonical decision diagrams, so any equivalent respelling of the guards is the same table", table_sites("C05"))
+    section(rep, lambda: decision_table(ctx, rep, "C05.DT", "C05"))
